@@ -201,6 +201,9 @@ fn history(tape: &[u8], _render: bool) -> (Outcome, String) {
     let mut t = Tape::new(tape);
     let (_det, sched, policy, conns, fault_at, way, victim, ending) = header(&mut t);
     let mut w = World::new(sched, policy);
+    // payload epochs are C12's subject; here a request generated for one connection may be sent
+    // by another (the victim), so the sender-respects-its-epoch premise does not hold
+    w.check_payload_epoch = false;
     let mut classes: BTreeSet<&'static str> = BTreeSet::new();
     macro_rules! tryf {
         ($e:expr) => {
